@@ -325,8 +325,17 @@ async def case_lines(spec: dict[str, Any], ctx: Ctx) -> None:
             if teaser:
                 conn.feed(teaser)
                 ctx.count('eof_teasers')
+            before_eof = len(conn.out)
             conn.feed_eof()
             await conn.loop.quiescent()     # type: ignore[attr-defined]
+            if re.search(rb'\* BYE \[SERVERBUG\]',
+                         bytes(conn.out[before_eof:])):
+                # a client that closes its side in the middle of a command
+                # (it can still read) is no server bug
+                ctx.report('internal-error-bye-on-client-eof',
+                           'after %r + EOF the server says %r' % (
+                               teaser, bytes(conn.out[before_eof:])[:80]),
+                           conn)
             if isinstance(conn.task_exc, BudgetExceeded):
                 ctx.report('hang', 'step budget exceeded after %r + EOF'
                            % teaser, conn)
